@@ -124,12 +124,17 @@ def _fresh(model: Model, F: RuleResult):
         F.ok(init.fq, "__init__ keeps a deep copy of the caller's object (self._obj = deepcopy(%s, memo))" % objp)
     else:
         F.bad(init, init.node, "__init__ must keep a deep copy of the caller's object, not the object itself")
-    ok_memo = any(isinstance(s, ast.Assign) and isinstance(s.targets[0], ast.Attribute) and s.targets[0].attr == "_tensor_memo"
-                  and isinstance(s.value, ast.Call) and ast.unparse(s.value.func).split(".")[-1] in ("copy", "dict") for s in own_nodes(init.node))
-    if ok_memo:
-        F.ok(init.fq, "the tensor memo kept on the Packer is a copy taken before deepcopy fills it")
+    # deepcopy writes every container it copies into its memo: the dict kept as self._tensor_memo must never be the dict handed to deepcopy
+    from ..flow import origins
+    defs_i = function_defs(init.node)
+    memo_asg = [s for s in own_nodes(init.node) if isinstance(s, ast.Assign) and isinstance(s.targets[0], ast.Attribute) and s.targets[0].attr == "_tensor_memo"]
+    dcs = [c for c in own_nodes(init.node) if isinstance(c, ast.Call) and ast.unparse(c.func).split(".")[-1] == "deepcopy" and len(c.args) >= 2]
+    kept = [o for s in memo_asg for o in origins(s.value, defs_i)]
+    shared = [c for c in dcs if ast.unparse(c.args[1]).endswith("._tensor_memo") or any(x is y for x in kept for y in origins(c.args[1], defs_i))]
+    if memo_asg and kept and not shared:
+        F.ok(init.fq, "the tensor memo kept on the Packer is not the dict deepcopy fills (kept: %s)" % sorted({ast.unparse(o)[:40] for o in kept}))
     else:
-        F.bad(init, init.node, "self._tensor_memo must be a copy of the memo taken before deepcopy adds the copied containers to it")
+        F.bad(init, enclosing_stmt(shared[0]) if shared else init.node, "self._tensor_memo must be a copy of the memo taken before deepcopy adds the copied containers to it")
 
     cl = model.func(PACK, "Packer.construct_from_tensor_list")
     cfg = CFG(cl.node)
